@@ -7,7 +7,9 @@
 //! input JSON: {"acts":[["wake",n],["in","abc"],["winch"],["term"],["write",len],["pause",bool],["poll",ms],
 //!                      ["poll_wake",d]   poll(None) entered first, wake() from another thread d ms later
 //!                      ["poll_winch",d]  poll(None) entered first, SIGWINCH sent to this thread d ms later (EINTR in select)
-//!                      ["hup"]           the peer closes the master side],
+//!                      ["hup"]           the peer closes the master side
+//!                      ["eagain",n]      the next n writes of the terminal object to the tty fail with EAGAIN (verif-hooks
+//!                                        fault script; consumed by the next poll, which reports how many it used)],
 //!              "end":"drop"|"drop_paused"|"run_err"|"render_quit"}
 //!             ms = -1: no timeout (only generated when something is outstanding)
 //!             {"stress":{"threads":t,"wakes":w}}
@@ -185,6 +187,11 @@ pub fn run_script(input: &Value) -> Case {
                     peer.pause(p); // acknowledged by the peer thread
                     acts_coq.push(format!("APause {}", cbool(p)));
                 }
+                "eagain" => {
+                    let n = a[1].as_u64().unwrap_or(1) as usize;
+                    surf_n_term::unix_verif::set_write_script(vec![surf_n_term::unix_verif::WriteFault::WouldBlock; n]);
+                    acts_coq.push(format!("AFault {}", n));
+                }
                 "hup" => {
                     peer.ctl(Ctl::Close);
                     // wait until the slave sees it
@@ -208,6 +215,7 @@ pub fn run_script(input: &Value) -> Case {
                     let tmo = if ms < 0 { None } else { Some(Duration::from_millis(ms as u64)) };
                     let done = std::sync::atomic::AtomicBool::new(false);
                     let waker = term.waker();
+                    let eagain0 = surf_n_term::unix_verif::write_fault_counts()[2];
                     let t0 = Instant::now();
                     let (c, v) = std::thread::scope(|sc| {
                         if during == "DWake" {
@@ -246,15 +254,18 @@ pub fn run_script(input: &Value) -> Case {
                         }
                     });
                     let elapsed = t0.elapsed().as_millis() as u64;
+                    // how often the loop went round on a tty that was reported writable and took nothing
+                    let spins = surf_n_term::unix_verif::write_fault_counts()[2] - eagain0;
+                    surf_n_term::unix_verif::set_write_script(vec![]);
                     npolls += 1;
                     // bytes sent so far and chunks left when the poll returned: what the kernel's short writes did to
                     // the queue (the loop condition depends on it); given to the model as an oracle
                     let (sent, pend) = (term.stats().send, term.frames_pending());
                     let tm = if ms < 0 { "None".to_string() } else { format!("(Some {})", ms) };
                     let du = if during == "DNone" { "DNone".to_string() } else { format!("({} {})", during, delay) };
-                    acts_coq.push(format!("APoll {} {} {} {} {}", tm, sent, pend, elapsed, du));
+                    acts_coq.push(format!("APoll {} {} {} {} {} {}", tm, sent, pend, elapsed, du, spins));
                     obs_coq.push(c);
-                    obs_json.push(json!({"result": v, "elapsed_ms": elapsed, "send": sent, "pending": pend}));
+                    obs_json.push(json!({"result": v, "elapsed_ms": elapsed, "send": sent, "pending": pend, "eagain_rounds": spins}));
                 }
                 _ => {}
             }
@@ -443,10 +454,11 @@ fn gen_script(rng: &mut Rng) -> Value {
                 let len = if big { 20000 + rng.below(150000) } else { 1 + rng.below(2000) };
                 acts.push(json!(["write", len]));
             }
-            56..=61 => {
+            56..=59 => {
                 paused = !paused;
                 acts.push(json!(["pause", paused]));
             }
+            60..=61 => acts.push(json!(["eagain", 1 + rng.below(300)])),
             62..=66 => {
                 // a request that arrives while this thread sits in an infinite poll: only when nothing else can be
                 // outstanding, so that the latency measured is the request's
@@ -508,6 +520,8 @@ pub fn generate(rng: &mut Rng, n: usize, _tier: &str) -> Vec<Value> {
     v.push(json!({"stress": {"threads": 4, "wakes": 300}}));
     v.push(json!({"blocked_wake": true}));
     v.push(json!({"acts": [["poll_wake", 20], ["poll", 0], ["poll_winch", 15], ["poll", 0]], "end": "drop"}));
+    v.push(json!({"acts": [["write", 9000], ["wake", 2], ["eagain", 500], ["poll", -1], ["poll", 0], ["poll", 3]], "end": "drop"}));
+    v.push(json!({"acts": [["write", 3000], ["in", "ab"], ["poll", 0], ["write", 50], ["eagain", 400], ["poll", 20], ["poll", 0], ["poll", 0]], "end": "drop"}));
     v.push(json!({"acts": [["in", "k"], ["hup"], ["poll", 0], ["poll", 0]], "end": "drop"}));
     v.push(json!({"acts": [["wake", 1], ["poll", 0]], "end": "run_err"}));
     v.push(json!({"acts": [["write", 5000], ["poll", 0], ["winch"]], "end": "render_quit"}));
